@@ -122,9 +122,67 @@ def run(ctx):
                     cj.append(desc)
                 except ValueError as ex:
                     ctx.fail("snapshot cannot be related to the program's objects: %s" % ex, desc, tag="unrelated")
+        history_independence(ctx)
     finally:
         e1.restore_clock(saved)
     ctx.correspond("collector", e1.IMPORTS, "snap_case", "check_snap_case_types", lits, cj, shard=60)
+
+
+def _view(obs):
+    """What a snapshot says, without the ids of this particular run's objects."""
+    tbl = {e["vid"]: e for e in obs["table"]}
+
+    def ent(vid, depth=0):
+        e = tbl.get(vid)
+        if e is None or depth > 6:
+            return None
+        return (e["ty"], e["val"], e["trunc"], tuple((c["name"], ent(c["vid"], depth + 1)) for c in e["children"]))
+    return [[(v["name"], ent(v["vid"])) for v in f["vars"]] for f in obs["frames"]]
+
+
+def history_independence(ctx):
+    """A snapshot does not depend on what was collected BEFORE it in the process: the same frame collected before and after
+    frames holding same-named but different classes (one of them cannot be looked into), and after everything else."""
+    def mk_classes():
+        class Item:                      # an ordinary class ...
+            def __init__(self):
+                self.name, self.price = "pen", 3
+
+        ordinary = Item
+
+        class Item:                      # ... and another class of the same NAME whose attribute dictionary cannot be read
+            __slots__ = ()
+
+            def __getattr__(self, k):
+                raise RuntimeError("no attributes")
+        return ordinary, Item
+    ordinary, slotted = mk_classes()
+    limits = dict(max_vars=100, max_coll=10, max_depth=5, max_str=64)
+
+    def case_of(obj, file):
+        return dict(frames=[dict(file=file, func="f", line=5, locals={"item": obj, "n": 1})], watches=[], limits=limits,
+                    frame_type="single_frame", keep=[obj])
+
+    def collect(case):
+        snaps, raised = e1.run_impl(case)
+        if raised is not None or len(snaps) != 1:
+            return None
+        return _view(e1.observe(snaps[0], e1.read_heap(case)))
+    seq = [("ordinary", case_of(ordinary(), "/app/shop.py")), ("unreadable", case_of(slotted(), "/app/wire.py")),
+           ("ordinary", case_of(ordinary(), "/app/shop.py")), ("unreadable", case_of(slotted(), "/app/wire.py")),
+           ("ordinary", case_of(ordinary(), "/app/shop.py"))]
+    views = [(k, collect(c)) for k, c in seq]
+    j = dict(history=[k for k, _ in seq], note="two classes both named Item: an ordinary one and one whose attribute lookup raises")
+    ctx.case(j, nontrivial=True, bucket="history")
+    firsts = {}
+    for i, (k, v) in enumerate(views):
+        if v is None:
+            ctx.fail("no snapshot for the %s frame at step %d of %s" % (k, i, [x for x, _ in seq]), j, kind="history", tag="history-no-snapshot")
+        elif k in firsts and v != firsts[k]:
+            ctx.fail("the %s frame collected at step %d reads %r; the same frame collected first read %r - a collection left something behind "
+                     "in the process" % (k, i, v, firsts[k]), j, kind="history", tag="depends-on-history")
+        else:
+            firsts.setdefault(k, v)
 
 
 def replay(ctx, data):
